@@ -519,6 +519,13 @@ fn fit_and_check(rep: &mut Report, regime: &str, x: &[f64], df: &Defs, p: usize)
             return None;
         }
     };
+    let f = judge_fit(rep, regime, x, df, p, &m)?;
+    Some((m, f))
+}
+
+/// The full oracle for a model object `m` that has just been fitted on `x` at order `p` (however the object came
+/// to be: fresh or fitted on something else before).
+fn judge_fit(rep: &mut Report, regime: &str, x: &[f64], df: &Defs, p: usize, m: &AR) -> Option<Fit> {
     let shape_ok = m.coeffs.len() == p;
     rep.check("C13.fit.order", regime, shape_ok, || json!({"p": p, "coeffs": jf(&m.coeffs)}));
     if !shape_ok {
@@ -576,7 +583,7 @@ fn fit_and_check(rep: &mut Report, regime: &str, x: &[f64], df: &Defs, p: usize)
         rep.check("C13.fit.levinson", regime, werr <= fwd_ref, || json!({"p": p, "series": jf(x), "phi": jf(&phi), "levinson": jf(&ld), "bound": fwd_ref, "kappa": jnum(kappa)}));
     }
     let mu = m.intercept;
-    Some((m, Fit { phi, mu, kappa, judged }))
+    Some(Fit { phi, mu, kappa, judged })
 }
 
 /// All forecast assertions for one fitted model on one history. Returns the library's forecasts.
@@ -860,6 +867,224 @@ fn one_coincidence(cfg: &Cfg, rng: &mut Rng, rep: &mut Report, class: usize) {
     series_pipeline(cfg, rng, rep, COINC[class], &x);
 }
 
+// ---------------------------------------------------------------------------------------------
+// refits of one model object on related series
+//
+// "A fitted AR model's coefficients solve the Yule–Walker equations of the series' autocorrelations": of the
+// series it was fitted on last, whatever the object was fitted on before. The second series of a refit is related
+// to the first one the way series are in surrogate-data / permutation tests, rolling windows and order-selection
+// loops: same length and bit-identical mean (permutation, two values swapped, reversal, reflection about the
+// mean, block shuffle, shuffled tail), same length only (independent series, redrawn tail), same mean only (other
+// length), shared prefix with another length (truncated, extended). Everything is built in integer units of the
+// 2^-20 grid with |sum| < 2^53 units, so sums are exact in any order and "bit-identical mean" is a fact that is
+// checked on the fitted intercepts of two fresh objects (and counted under a required label), not assumed.
+// Sequence per case: object fitted on A, refitted on B, refitted on A again; after each refit the object is
+// compared bit for bit with a fresh object fitted on that series only and goes through the full fit oracle
+// (order, intercept, Yule–Walker residual, Levinson–Durbin) and the forecast oracle.
+
+const REFIT_KINDS: [&str; 10] = [
+    "refit:same-length+same-mean:permutation",
+    "refit:same-length+same-mean:swap-two",
+    "refit:same-length+same-mean:reversal",
+    "refit:same-length+same-mean:reflection-about-mean",
+    "refit:same-length+same-mean:block-shuffle",
+    "refit:same-length+same-mean:shared-prefix(tail-shuffled)",
+    "refit:same-length-only:independent",
+    "refit:same-length-only:shared-prefix(tail-redrawn)",
+    "refit:same-mean-only:other-length",
+    "refit:shared-prefix:other-length",
+];
+
+/// base series in units, centred exactly (sum == n·su afterwards)
+fn centred_units(rng: &mut Rng, n: usize, su: i64) -> Vec<i64> {
+    let (_, mut u) = base_units(rng, n);
+    let sum: i64 = u.iter().sum();
+    let q = sum.div_euclid(n as i64);
+    let r = sum.rem_euclid(n as i64) as usize;
+    for (i, v) in u.iter_mut().enumerate() {
+        *v += su - q - if i < r { 1 } else { 0 };
+    }
+    u
+}
+
+/// offset in units: 0, small, or 1e2..1e5 (|value| < 2^18, so |sum| < 2^51 units for n <= 5000)
+fn offset_units(rng: &mut Rng) -> i64 {
+    match rng.usize(0, 2) {
+        0 => 0,
+        1 => (rng.range(-10.0, 10.0) * GRID).round() as i64,
+        _ => (rng.log_range(1e2, 1e5) * GRID).round() as i64 * if rng.bool() { 1 } else { -1 },
+    }
+}
+
+fn same_model(a: &AR, b: &AR) -> bool {
+    a.coeffs.len() == b.coeffs.len() && a.coeffs.iter().zip(&b.coeffs).all(|(x, y)| same_bits(*x, *y)) && same_bits(a.intercept, b.intercept)
+}
+
+fn one_refit(cfg: &Cfg, rng: &mut Rng, rep: &mut Report, which: usize) {
+    let kind = REFIT_KINDS[which];
+    let nmax = if cfg.lite { 300.0 } else { 5000.0 };
+    let n = rng.log_range(16.0, nmax).round() as usize;
+    let p = rng.usize(1, 8);
+    let su = offset_units(rng);
+    let g = GRID as i64;
+    let claims_same_mean = kind.contains("same-mean");
+    // first series: centred base + offset; for the rearrangements also raw counts (mean not a grid value)
+    let counts = matches!(which, 0 | 1 | 2 | 4 | 5) && rng.chance(0.3);
+    let a: Vec<i64> = if counts {
+        let lam = *rng.choose(&[0.5, 2.0, 10.0, 200.0]);
+        (0..n).map(|_| g * rng.poisson(lam) as i64).collect()
+    } else {
+        centred_units(rng, n, su)
+    };
+    let b: Vec<i64> = match which {
+        0 => {
+            let mut v = a.clone();
+            rng.shuffle(&mut v);
+            v
+        }
+        1 => {
+            let mut v = a.clone();
+            for _ in 0..50 {
+                let (i, j) = (rng.usize(0, n - 1), rng.usize(0, n - 1));
+                if v[i] != v[j] {
+                    v.swap(i, j);
+                    break;
+                }
+            }
+            v
+        }
+        2 => a.iter().rev().copied().collect(),
+        3 => a.iter().map(|v| 2 * su - v).collect(),
+        4 => {
+            let l = rng.usize(2, (n / 4).max(2));
+            let blocks: Vec<&[i64]> = a.chunks(l).collect();
+            let order = rng.perm(blocks.len());
+            order.iter().flat_map(|&i| blocks[i].iter().copied()).collect()
+        }
+        5 => {
+            let k = rng.usize(n / 4, 3 * n / 4);
+            let mut v = a.clone();
+            rng.shuffle(&mut v[k..]);
+            v
+        }
+        6 => {
+            let mut su2 = offset_units(rng);
+            if su2 == su {
+                su2 += g;
+            }
+            centred_units(rng, n, su2)
+        }
+        7 => {
+            let k = rng.usize(n / 4, 3 * n / 4);
+            let (_, t) = base_units(rng, n - k);
+            let mut v = a.clone();
+            for (d, s) in v[k..].iter_mut().zip(&t) {
+                *d = s + su + 1;
+            }
+            v
+        }
+        8 => {
+            let mut n2 = rng.log_range(16.0, nmax).round() as usize;
+            if n2 == n {
+                n2 += 1;
+            }
+            centred_units(rng, n2, su)
+        }
+        _ => {
+            if rng.bool() {
+                a[..rng.usize((n / 2).max(10), n - 1)].to_vec()
+            } else {
+                let extra = rng.usize(1, n);
+                let (_, t) = base_units(rng, extra);
+                let mut v = a.clone();
+                v.extend(t.iter().map(|s| s + su));
+                v
+            }
+        }
+    };
+    let xa: Vec<f64> = a.iter().map(|&v| v as f64 / GRID).collect();
+    let xb: Vec<f64> = b.iter().map(|&v| v as f64 / GRID).collect();
+    rep.case(kind);
+    rep.seen(&format!("refit-order:{}", p), 1);
+    let (dfa, dfb) = (defs(&xa), defs(&xb));
+    rep.distinct(Hasher::new().s(kind).u(p as u64).u(xa.len() as u64).u(xb.len() as u64).fs(&xa[..16]).fs(&xb[..10]).finish(), dfa.c0 > 0.0 && dfb.c0 > 0.0);
+    // fresh objects (they go through the whole fit oracle as any other fit)
+    let Some((fresh_a, _)) = fit_and_check(rep, kind, &xa, &dfa, p) else { return };
+    let Some((fresh_b, _)) = fit_and_check(rep, kind, &xb, &dfb, p) else { return };
+    // what the two series really share
+    let same_len = xa.len() == xb.len();
+    let same_mean = same_bits(fresh_a.intercept, fresh_b.intercept);
+    let differ = a != b;
+    if claims_same_mean && !same_mean {
+        rep.inconclusive(format!("{}: the generator promised a bit-identical mean, fresh intercepts are {:e} and {:e}", kind, fresh_a.intercept, fresh_b.intercept));
+        return;
+    }
+    // autocorrelations of the two series (double-double), lags 1..p: do the series differ where the fit looks?
+    let racf = |df: &Defs| -> Vec<f64> { (1..=p).map(|k| (acov_ref(&df.d, k) / acov_ref(&df.d, 0)).f()).collect() };
+    let acf_gap = racf(&dfa).iter().zip(racf(&dfb)).fold(0.0f64, |m, (x, y)| m.max((x - y).abs()));
+    if differ {
+        match (same_len, same_mean) {
+            (true, true) => {
+                rep.seen("refit:observed:same-length&bit-identical-mean&different-series", 1);
+                if acf_gap > 1e-3 {
+                    rep.seen("refit:observed:same-length&bit-identical-mean&acf-differs", 1);
+                }
+                if fresh_a.intercept != 0.0 {
+                    rep.seen("refit:observed:same-length&bit-identical-mean!=0", 1);
+                }
+                if fresh_a.intercept * GRID != (fresh_a.intercept * GRID).round() {
+                    rep.seen("refit:observed:same-length&bit-identical-mean-off-grid", 1);
+                }
+            }
+            (true, false) => rep.seen("refit:observed:same-length&different-mean", 1),
+            (false, true) => rep.seen("refit:observed:different-length&bit-identical-mean", 1),
+            (false, false) => rep.seen("refit:observed:different-length&different-mean", 1),
+        }
+        let common = a.iter().zip(&b).take_while(|(x, y)| x == y).count();
+        if common >= p + 1 {
+            rep.seen("refit:observed:shared-prefix>p", 1);
+        }
+    }
+    // one object: A, then B, then A again; each state against a fresh object and the oracle
+    let detail = |step: &str, refit: &AR, fresh: &AR| json!({"kind": kind, "p": p, "sequence": step, "n_first": xa.len(), "n_second": xb.len(), "first_series": jf(&xa), "second_series": jf(&xb),
+        "fresh_coeffs": jf(&fresh.coeffs), "refit_coeffs": jf(&refit.coeffs), "fresh_intercept": jnum(fresh.intercept), "refit_intercept": jnum(refit.intercept)});
+    let ab = guard(|| {
+        let mut m = AR::new(p);
+        m.fit(&xa);
+        m.fit(&xb);
+        m
+    });
+    match ab {
+        Ok(m) => {
+            rep.check("C13.fit.refit_equals_fresh", kind, same_model(&m, &fresh_b), || detail("fit(first); fit(second)", &m, &fresh_b));
+            if let Some(f) = judge_fit(rep, kind, &xb, &dfb, p, &m) {
+                if f.phi.iter().all(|v| v.is_finite()) {
+                    let _ = check_forecasts(rep, &m, &f, &xb, dfb.c0.sqrt(), rng, false);
+                }
+            }
+        }
+        Err(msg) => {
+            rep.check("C13.fit.refit_equals_fresh", kind, false, || json!({"kind": kind, "p": p, "sequence": "fit(first); fit(second)", "panic": msg}));
+        }
+    }
+    let aba = guard(|| {
+        let mut m = AR::new(p);
+        m.fit(&xa);
+        m.fit(&xb);
+        m.fit(&xa);
+        m
+    });
+    match aba {
+        Ok(m) => {
+            rep.check("C13.fit.refit_equals_fresh", kind, same_model(&m, &fresh_a), || detail("fit(first); fit(second); fit(first)", &m, &fresh_a));
+            let _ = judge_fit(rep, kind, &xa, &dfa, p, &m);
+        }
+        Err(msg) => {
+            rep.check("C13.fit.refit_equals_fresh", kind, false, || json!({"kind": kind, "p": p, "sequence": "fit(first); fit(second); fit(first)", "panic": msg}));
+        }
+    }
+}
+
 fn series_pipeline(cfg: &Cfg, rng: &mut Rng, rep: &mut Report, regime: &str, x: &[f64]) {
     let regime = regime.to_string();
     rep.case(&regime);
@@ -1014,9 +1239,10 @@ fn one_smooth(cfg: &Cfg, rng: &mut Rng, rep: &mut Report) {
 }
 
 pub fn run(cfg: &Cfg, rep: &mut Report) {
-    rep.rule = "random series: AR(1..6) simulated from random partial autocorrelations (stationary by construction), AR + linear trend, constant + white noise; scale 0.1..100, length log-uniform 10..5000; centred exactly (integer arithmetic on a 2^-20 grid, fitted intercept == 0.0), small offset, or offset 1e2..1e6; per series all lags -50..50 and |lag| >= n, 2-3 model orders in 1..8, horizons 1..1000, shifts c in {1,1e3,1e6}. Series close to the boundary of stationarity (nearly singular Yule-Walker systems; 64 quick / 800 thorough, 3 of 4 with length 2000..5000): AR(2..6) with all roots at 0.95..0.999, white noise passed 2..4 times through a moving average, 1..3 slow sinusoids (0.3..4 cycles per series, optional drift) plus white noise of 1e-3..3e-2 of their sd, narrow-band AR(2) with root modulus 1-1e-5..1-1e-3 plus a small noise floor; lag-1 sample autocorrelation up to 1-4e-6, |pacf(2)| up to 0.9995; per series all lags, the fit at EVERY order 1..8 against the Yule-Walker equations of its own double-double autocovariances, forecasts at two orders. non-trivial = non-constant series; distinct by (regime, length, first 16 values)".into();
+    rep.rule = "random series: AR(1..6) simulated from random partial autocorrelations (stationary by construction), AR + linear trend, constant + white noise; scale 0.1..100, length log-uniform 10..5000; centred exactly (integer arithmetic on a 2^-20 grid, fitted intercept == 0.0), small offset, or offset 1e2..1e6; per series all lags -50..50 and |lag| >= n, 2-3 model orders in 1..8, horizons 1..1000, shifts c in {1,1e3,1e6}. Series close to the boundary of stationarity (nearly singular Yule-Walker systems; 64 quick / 800 thorough, 3 of 4 with length 2000..5000): AR(2..6) with all roots at 0.95..0.999, white noise passed 2..4 times through a moving average, 1..3 slow sinusoids (0.3..4 cycles per series, optional drift) plus white noise of 1e-3..3e-2 of their sd, narrow-band AR(2) with root modulus 1-1e-5..1-1e-3 plus a small noise floor; lag-1 sample autocorrelation up to 1-4e-6, |pacf(2)| up to 0.9995; per series all lags, the fit at EVERY order 1..8 against the Yule-Walker equations of its own double-double autocovariances, forecasts at two orders. Refits of one model object on related series (16 quick / 100 thorough per kind; object fitted on A, then B, then A again, order 1..8, lengths 16..5000, offsets 0 / +-10 / +-1e2..1e5, 3 of 10 rearrangement cases on Poisson counts): B = permutation, two values swapped, reversal, reflection about the mean, block shuffle, shuffled tail of A (same length, bit-identical mean - verified on fresh intercepts), an independent series or A with a redrawn tail (same length only), a series of another length with the same exact mean, A truncated or extended; after each refit bit-for-bit equality with a fresh object and the full fit and forecast oracle on the refitted object. non-trivial = non-constant series; distinct by (regime, length, first 16 values)".into();
     rep.assume("series values are multiples of 2^-20 with |x| < 2^22, so x + c is exactly representable and the shifted input is not itself rounded");
     rep.assume("coincidence family: x - max(x), x - min(x), distance from the running peak / trough of a random walk or persistent AR(1), extreme value moved to +-2^k (k = -3..12, +-1 most often), antisymmetric series, 2x - (max+min), entries replaced by +0.0 / -0.0, series censored at 0, Poisson counts and their negatives, strictly one-signed series; all built in integer units of 2^-20 (exact), lengths 10..5000; each runs through the same assertions as an ordinary series (definitions, evenness, lag 0, intercept, Yule-Walker, forecast reference, shift equivariance with c in {1,1e3,1e6})");
+    rep.assume("refit family: values are multiples of 2^-20 below 2^18 in size, so every partial sum is exact in any order and series with the same multiset of values (or the same exact sum and length) have bit-identical means whatever the summation order; the claim is checked on the intercepts of two fresh objects (a mismatch ends the case as inconclusive)");
     rep.assume("model order p <= 8 < 10 <= series length (predict_one with fewer than p values and predict on shorter histories are outside the quantifier)");
     rep.assume("coefficients are read from AR.coeffs in the documented (reversed) storage order");
     rep.assume("coefficient checks are skipped when kappa(R)*(8p*eps + acf error bound) > 1e-3 and shift equivariance when kappa(R) > 1e4: there a refit legitimately moves the coefficients by more than the tolerance (counted under the low-power / skipped regimes)");
@@ -1034,6 +1260,22 @@ pub fn run(cfg: &Cfg, rep: &mut Report) {
         for r in ["series:max==0", "series:min==0", "series:max==-min", "series:sum==0", "series:all-negative", "series:all-positive", "series:nonpositive-touching-0", "series:nonnegative-touching-0", "series:contains--0.0", "series:integer-valued", "series:extreme-is-power-of-two"] {
             rep.require(r, 1);
         }
+    }
+    // refits of one model object on related series (kinds in turn). Off under Miri as the coincidence family is
+    let nr = if cfg.miri() { 0 } else { cfg.pick(16, 100, 1) * REFIT_KINDS.len() };
+    par_cases(cfg, rep, 5, nr, |i, rng, rep| one_refit(cfg, rng, rep, i % REFIT_KINDS.len()));
+    if !cfg.miri() {
+        for k in REFIT_KINDS {
+            rep.require(k, 1);
+        }
+        for l in ["same-length&bit-identical-mean&different-series", "same-length&different-mean", "different-length&bit-identical-mean", "different-length&different-mean", "shared-prefix>p"] {
+            rep.require(&format!("refit:observed:{}", l), 1);
+        }
+    }
+    if !cfg.lite {
+        rep.require("refit:observed:same-length&bit-identical-mean&acf-differs", 10);
+        rep.require("refit:observed:same-length&bit-identical-mean!=0", 5);
+        rep.require("refit:observed:same-length&bit-identical-mean-off-grid", 1);
     }
     // directed: the unit-test series shape (short, zero-mean-ish) and the DESIGN probe (AR(2) + 1000)
     par_cases(cfg, rep, 2, 1, |_i, rng, rep| {
